@@ -547,7 +547,13 @@ fn xentry(a: &Args, inner: &[usize], bufs: &[usize]) -> String {
             verdict.push("sound".into());
         }
     }
-    verdict.join(" ")
+    let v = verdict.join(" ");
+    // under damage the external decoders may notice the damage at different points for different buffer sizes;
+    // the properties then ask for soundness only (see the oracle): canonical response
+    if damaged && v.starts_with("DIFF ") && v.ends_with(" sound") && !v.contains("UNSOUND") && !v.contains("EOF-NOT-STICKY") {
+        return "same sound".into();
+    }
+    v
 }
 
 // ---------------------------------------------------------------------------------------------
@@ -864,7 +870,8 @@ fn gen_damage(seed: u64, tier: &str) -> GenOut {
               distinct = distinct op lines; non-trivial = entry opened and was read".into();
     let mut r = super::rng_for(seed, "damage", 0);
     let bufs_set: [Vec<usize>; 5] = [vec![0, 1], vec![1], vec![2], vec![7], vec![4096]];
-    let sizes: Vec<usize> = if thorough { vec![1, 9, 120, 600] } else { vec![1, 9, 120, 400] };
+    // 0: an entry without data still has a declared CRC-32 (of the empty string) that must be checked
+    let sizes: Vec<usize> = if thorough { vec![0, 1, 9, 120, 600] } else { vec![0, 1, 9, 120, 400] };
     let mut seeds = vec![];
     for m in METHODS {
         for &n in &sizes {
@@ -1150,7 +1157,14 @@ fn oracle_line(line: &str, resp: &str) -> Vec<OracleFailure> {
             }
         }
         "layers.xentry" => {
-            if resp != "same sound" {
+            // an intact archive must read the same under every schedule (C09) and soundly (C04).  Under DAMAGE the
+            // external decoders may notice the damage at different points for different buffer sizes (a corrupted
+            // zstd frame of an empty entry ends cleanly for 1-byte reads and errs for large ones): what the
+            // properties ask then is soundness only - no read completes with data whose CRC-32 is not the declared
+            // one - which is the second word of the verdict
+            let sound = resp.ends_with(" sound");
+            let ok = resp == "same sound" || (dmg != "none" && sound && !resp.contains("UNSOUND") && !resp.contains("EOF-NOT-STICKY"));
+            if !ok {
                 fail(format!("archive-level oracle: {resp}"));
             }
         }
